@@ -18,6 +18,7 @@ package fieldmask
 
 import (
 	"encoding/json"
+	"errors"
 	"fmt"
 	"io"
 	"math"
@@ -92,8 +93,13 @@ func (v pathValue) Int() int {
 }
 
 func (v pathValue) Int32() int32 {
-	if v.iv > math.MaxInt32 || v.iv < math.MinInt32 {
-		panic("integer overflow")
+	// field ids are 16-bit: anything beyond int32 cannot name a field, so
+	// saturate (the lookup then fails) instead of panicking on user input
+	if v.iv > math.MaxInt32 {
+		return math.MaxInt32
+	}
+	if v.iv < math.MinInt32 {
+		return math.MinInt32
 	}
 	return int32(v.iv)
 }
@@ -116,6 +122,8 @@ func (p pathToken) Err() error {
 	switch p.typ {
 	case pathTypeEOF:
 		return io.EOF
+	case pathTypeERR:
+		return errors.New(p.val.Str())
 	default:
 		return nil
 	}
@@ -160,12 +168,13 @@ func newPathToken(typ pathType, val string, s, e int) pathToken {
 	switch typ {
 	case pathTypeEOF:
 		return pathToken{typ: typ}
-	case pathTypeStr, pathTypeAny, pathTypeElem, pathTypeField, pathTypeIndexL, pathTypeIndexR, pathTypeLitStr, pathTypeMapR, pathTypeMapL, pathTypeRoot:
+	case pathTypeStr, pathTypeAny, pathTypeElem, pathTypeField, pathTypeIndexL, pathTypeIndexR, pathTypeLitStr, pathTypeMapR, pathTypeMapL, pathTypeRoot, pathTypeERR:
 		return pathToken{typ: typ, val: newPathValueStr(val), loc: [2]int{s, e}}
 	case pathTypeLitInt:
 		i, err := strconv.Atoi(val)
 		if err != nil {
-			panic(err)
+			// e.g. an integer beyond the int range: a malformed path, not a crash
+			return pathToken{typ: pathTypeERR, val: newPathValueStr("invalid integer " + val), loc: [2]int{s, e}}
 		}
 		return pathToken{typ: typ, val: newPathValueInt(i), loc: [2]int{s, e}}
 	default:
@@ -286,6 +295,9 @@ func (p *pathIterator) str() (string, error) {
 		}
 	}
 ret:
+	if i > len(p.src) {
+		i = len(p.src) // a trailing backslash skipped past the end
+	}
 	val := p.src[p.pos:i]
 	p.pos = i
 	val, err := strconv.Unquote(val)
